@@ -2,6 +2,7 @@
 ID = "C08"
 PROPS = "Props/C08.v"
 COQ_TIMEOUT = 5400   # Coq build of this property incl. rebuilt dependencies; generous: on a loaded machine a rebuild after an upstream edit took > 1500 s
+GEN = ["hssig"]       # scheme tables and the structure of pickSignatureAlgorithm / verifyHandshakeSignature (auth.go, common.go, prf.go)
 LEGS = [{"driver": "c08", "runner": ("hs", "Extract/ExtractHS.v", "Hs_model"), "timeout": 3000}]
 
 TECHNIQUE = ("Coq proofs over symbolic (perfect-cryptography) state machines of the gmtls GMSSL client and of the servers, with a Dolev-Yao network attacker; "
@@ -12,6 +13,9 @@ LEVEL_TEXT = ("Theorems in Coq (Props/C08.v): for EVERY message sequence deliver
               "encrypted to certificate 1's key, and Finished = PRF(master,'server finished',Hash(transcript)); for every sequence delivered to a server model completion implies the ClientAuth "
               "policy table, CertificateVerify valid over this transcript whenever a certificate was presented, and the right Finished; against a Dolev-Yao attacker the accepted signature and "
               "Finished originate from honest key holders (authentication) and both ends that complete hold equal transcripts and master secrets (agreement). "
+              "Byte level: equal byte transcripts of well-formed messages are the same message values, hence equal under every abstraction into terms (C08_equal_byte_transcripts_equal_views, from the marshal/unmarshal round trip of C15). "
+              "gmtls/auth.go: for every key type, version and scheme lists for which signer and verifier both succeed they use the same signature type, hash and digest (tables and structure of pickSignatureAlgorithm read from the AST); "
+              "4 100 pickSignatureAlgorithm calls and 1 200 digest selections are compared with the model through hooks. "
               "The attacker catalogue of the property (about 1 800 scripts quick, 15 000 thorough) is executed against real endpoints and outcomes compared with the models.")
 LEVEL_NOTE = ("Idealisation: symbolic signatures / encryption / PRF / hash (free term algebra). Chain verification is an abstract predicate per certificate (C10 owns x509.Verify); "
               "the premises of 'authentication' (CA unforgeability + honest server keys, secrecy discipline of honest parties, network = Dolev-Yao derivation) are explicit hypotheses, "
@@ -22,6 +26,7 @@ LEVEL_NOTE = ("Idealisation: symbolic signatures / encryption / PRF / hash (free
 TRUSTED_BASE = [
     "models coq/HS/HSModel.v, HSTerms.v written by hand from gmtls/*.go; tied by the correspondence runs of this check and of C15",
     "extraction: ExtrOcamlBasic only; OCaml runner ocaml/hs/main.ml (term-level rendering of each attack script)",
+    "crypto.Hash numbering (SHA1 3 ... MD5SHA1 8) written into the translator; the identification of a digest by the driver (comparison with stdlib / sm3 hashes of the same data)",
     "Go driver harness/cmd/c08 (malicious GM server / client flows and MITM on the real record layer through gmtls/verif_handshake_verif.go)",
 ]
 ASSUMPTIONS = [
@@ -82,6 +87,10 @@ def nontrivial(f):
 
 
 def classify(f, io):
+    if f[0] == "PA":
+        return "PA:" + f[2] + ":" + f[5] + ":" + (io[0] if io else "none")
+    if f[0] == "PD":
+        return "PD:" + f[2] + ":" + f[3] + ":" + (io[0] if io else "none")
     if f[0] == "AM":
         return "AM:" + f[6] + ":" + " ".join(io[:2])
     if f[0] == "AN":
@@ -92,9 +101,25 @@ def classify(f, io):
 def predicate(f, io):
     if not io:
         return False, "no observation"
+    op = f[0]
+    if op == "PA":
+        # pickSignatureAlgorithm: a panic is a failure unless the case passes an own list the handshake code never passes (marked u)
+        if "PANIC" in io and f[-1] != "u":
+            return False, "pickSignatureAlgorithm panicked for lists the handshake code can pass"
+        if io[0] == "ok":
+            peer = [] if f[3] == "-" else f[3].split(".")
+            tls12 = int(f[5], 16) >= 0x0303
+            if tls12 and peer and io[1] not in peer:
+                return False, "picked scheme %s is not in the peer's list" % io[1]
+        return True, ""
+    if op == "PD":
+        if "PANIC" in io and not (f[2] in ("cc", "skx") and int(f[3], 16) >= 0x0303 and f[6] not in ("3", "5", "6", "7")):
+            return False, "digest selection panicked"
+        if f[2] == "gmcc" and io[0] != "sm3":
+            return False, "the GMSSL client does not sign SM3(transcript)"
+        return True, ""
     if any(x in ("PANIC", "HANG") for x in io):
         return False, "endpoint panicked or hung under attack"
-    op = f[0]
     if op == "AS":
         attack = f[3]
         if attack in AS_CONTROLS:
